@@ -30,6 +30,18 @@ STRENGTHENED = {
  "C18-5": "the AArch64 front end passed first_round as a clean constant: AAPCS64 leaves the upper register bits of a uint8_t argument unspecified - now a symbolic word that only an explicit masking instruction turns into the constant",
  "C19-5": "output files never pre-existed with longer content: existing-longer-output cases added (decrypt over it, re-encrypt over an older image)",
 }
+STRENGTHENED.update({
+ "C01-7": "lengths of 2^32 and more ran only in the thorough tier: AD of 2^32+5 zero bytes through each variant's one-shot encryption (read-only zero pages, three processes side by side) added to the quick tier",
+ "C02-7": "ISAP decryption never went through a saved and reloaded key in C02 (C06 had it): reloaded-key sessions with a valid and a forged ciphertext added",
+ "C02-8": "no quick-tier build with one data share: (4,1,4) build added for the masked entry points",
+ "C03-8": "pad() was exercised only by C07: new theorems xof_pad_zeros / C03_pad (pad = absorbing zeroes to the block boundary) and pad() calls inside a quarter of the XOF/XOFA histories",
+ "C04-7": "HMAC output never overlapped its key: out == key histories (one-shot and finalize) added",
+ "C05-8": "PBKDF2 counts stopped at 100: counts of 2^32 and more must still be iterating after 1.5 s (child process), small-count control",
+ "C06-7": "the C++ SIV/ISAP classes were exercised only by C17: SIVC / ISAPC operations (key constructor / set_key, pointer / byte_array overload) added to C06 and C02",
+ "C14-7": "an empty set_nonce after a non-zero held nonce was in the sampled C17 histories only by chance: two targeted histories per class added",
+ "C15-8": "the mixer check compared whole seeds: a one-bit change at each of the 32 byte positions of the init seed and of the reseed seed must change the words",
+ "C18-8": "the ARM front end treated bx like a plain jump: interworking modelled (bx / pop {pc} with a local label's address in Thumb code leaves Thumb state = stuck)",
+})
 rows = []
 for d in sorted(glob.glob(os.path.join(V, "seeded", "*"))):
     if not os.path.isdir(d):
